@@ -49,6 +49,8 @@ fn main() {
         let txt = std::fs::read_to_string(&path).expect("replay file");
         let v: serde_json::Value = serde_json::from_str(&txt).expect("replay json");
         match prop.as_str() {
+            "C01" => props::c01::replay(&ctx, &v),
+            "C02" => props::c02::replay(&ctx, &v),
             "C03" => props::c03::replay(&ctx, &v),
             "C05" => props::c05::replay(&ctx, &v),
             "C06" => props::c06::replay(&ctx, &v),
@@ -65,6 +67,8 @@ fn main() {
         }
     } else {
         match prop.as_str() {
+            "C01" => props::c01::run(&ctx),
+            "C02" => props::c02::run(&ctx),
             "C03" => props::c03::run(&ctx),
             "C05" => props::c05::run(&ctx),
             "C06" => props::c06::run(&ctx),
